@@ -419,6 +419,24 @@ func run1(c Case) (res Result) {
 
 	reqs := requests()
 	_ = lb.take()
+	// releaseAll gives back every halt lock the way its holder would. A lock that cannot be given back within five
+	// seconds is one that a handler has left pinned: the node is wedged for every writer of that database.
+	releaseAll := func(i int) bool {
+		for _, db := range target.Store.DBs() {
+			id := db.VerifHaltLockID()
+			if id == 0 {
+				continue
+			}
+			ctx, cancel := context.WithTimeout(context.Background(), 5*time.Second)
+			db.ReleaseHaltLock(ctx, id)
+			cancel()
+			if db.VerifHaltLockID() == id {
+				viol("C20/wedged/halt-lock-cannot-be-released", "before request %d: halt lock %d on %q cannot be released by its holder within five seconds (an earlier request left it in use)", i, id, db.Name())
+				return false
+			}
+		}
+		return true
+	}
 	noResponse := 0
 	for i, rq := range reqs {
 		skip := false
@@ -435,12 +453,8 @@ func run1(c Case) (res Result) {
 		}
 		fmt.Fprintf(os.Stderr, "REQ %d %s\n", i, rq.Desc)
 		res.Requests++
-		if c.Held {
-			for _, db := range target.Store.DBs() {
-				if id := db.VerifHaltLockID(); id != 0 {
-					db.ReleaseHaltLock(context.Background(), id)
-				}
-			}
+		if c.Held && !releaseAll(i) {
+			return
 		}
 		// let halt locks from earlier valid requests expire so that every request meets the same node
 		waitFor(func() bool {
@@ -586,10 +600,8 @@ func run1(c Case) (res Result) {
 	// A node that granted a halt lock and then stopped being the primary still has the lock on its books: a forwarded
 	// transaction under that lock - well formed and in sequence - is not allowed for its role any more.
 	if c.Held && c.Role == "primary" {
-		for _, db := range target.Store.DBs() {
-			if id := db.VerifHaltLockID(); id != 0 {
-				db.ReleaseHaltLock(context.Background(), id)
-			}
+		if !releaseAll(len(reqs)) {
+			return
 		}
 		if _, err := target.DB("db").AcquireHaltLock(context.Background(), 777); err != nil {
 			res.Harness = "held: cannot take lock 777: " + err.Error()
